@@ -5,19 +5,9 @@ namespace Wv.Codec
 open Wv
 
 
-inductive Tok
-  | lit (bs : Bytes)
-  | zeros (n : Nat)
-
 def Tok.ok : Tok → Prop
   | .lit bs => 1 ≤ bs.length ∧ bs.length ≤ 128
   | .zeros n => 3 ≤ n ∧ n ≤ 130
-def Tok.enc : Tok → Bytes
-  | .lit bs => UInt8.ofNat (128 + (bs.length - 1)) :: bs
-  | .zeros n => [UInt8.ofNat (n - 3)]
-def Tok.out : Tok → Bytes
-  | .lit bs => bs
-  | .zeros n => List.replicate n 0
 
 theorem sparseGo_nil (f rem : Nat) (out : Bytes) : sparseGo f [] rem out = out := by
   cases f <;> rfl
